@@ -519,6 +519,22 @@ def rule_for_consume(text, ctx, where):
     return text, n
 
 
+def rule_for_into_iter(text, ctx, where):
+    """`for PAT in V.into_iter() {` (V an owned Vec) -> drain from the front, in order: `while V'.len() > 0 { let PAT = V'.remove(0);`"""
+    n = 0
+    while True:
+        m = mask(text)
+        mt = re.search(r"\bfor\s+(\([^)]*\)|[A-Za-z_]\w*)\s+in\s+([A-Za-z_]\w*)\.into_iter\(\)\s*\{", m)
+        if not mt:
+            break
+        pat = text[mt.start(1):mt.end(1)]
+        v = mt.group(2)
+        cv = f"__iv{n}"
+        text = text[:mt.start()] + f"let mut {cv} = {v}; while {cv}.len() > 0 {{ let {pat} = {cv}.remove(0);" + text[mt.end():]
+        n += 1
+    return text, n
+
+
 def rule_for_entries(text, ctx, where):
     """`for (a, b) in M.iter() {` over a map -> loop over `M.entries()` (a Vec of (&K, &V) pairs in the map's iteration order,
     which the shim leaves unspecified for hash maps)"""
@@ -594,7 +610,7 @@ def rule_unreachable_partial(text, ctx, where):
     return text, n
 
 
-RULES = {"iter_map_collect": rule_iter_map_collect, "ok_or_else_q": rule_ok_or_else_q, "for_zip": rule_for_zip, "msg_to_string": rule_msg_to_string, "for_consume": rule_for_consume, "for_entries": rule_for_entries, "opt_map": rule_opt_map, "opt_or_else": rule_opt_or_else, "closure_inline": rule_closure_inline, "unreachable_partial": rule_unreachable_partial, "assert_partial": rule_assert_partial, "for_index": rule_for_index, "map_err_q": rule_map_err_q, "iter_any": rule_iter_any, "opt_map_or": rule_opt_map_or, "mutself": rule_mutself, "fmtmsg": rule_fmtmsg, "pubfields": rule_pubfields, "T": rule_T, "attrs": rule_attrs, "cell": rule_cell}
+RULES = {"for_into_iter": rule_for_into_iter, "iter_map_collect": rule_iter_map_collect, "ok_or_else_q": rule_ok_or_else_q, "for_zip": rule_for_zip, "msg_to_string": rule_msg_to_string, "for_consume": rule_for_consume, "for_entries": rule_for_entries, "opt_map": rule_opt_map, "opt_or_else": rule_opt_or_else, "closure_inline": rule_closure_inline, "unreachable_partial": rule_unreachable_partial, "assert_partial": rule_assert_partial, "for_index": rule_for_index, "map_err_q": rule_map_err_q, "iter_any": rule_iter_any, "opt_map_or": rule_opt_map_or, "mutself": rule_mutself, "fmtmsg": rule_fmtmsg, "pubfields": rule_pubfields, "T": rule_T, "attrs": rule_attrs, "cell": rule_cell}
 
 
 def apply_rules(text, rules, ctx, counts, where):
